@@ -141,7 +141,16 @@ OwnershipViolations(db) ==
   \cup {<<"step_output_single_producer", f>> : f \in {f \in Files(db) :
          Cardinality({s \in Sources(db, f) : db.nodes[s].kind = "step"}) > 1}}
 
-(* recorded matches of attached patterns never include an attached build product *)
+(* recorded matches of attached patterns never include an attached build product;            *)
+(* evaluated right after an accepted declaration (the startup rescan may record such a match  *)
+(* before the owner of the pattern reruns and is rejected)                                    *)
+GlobProductViolations(db) ==
+  {<<"glob_match_is_a_build_product", s>> : s \in {s \in Steps(db) : ~db.nodes[s].detached /\
+         db.nodes[s].sstate # "PENDING" /\
+         \E i \in DOMAIN db.nodes[s].nglobs : \E j \in DOMAIN db.nodes[s].nglobs[i][3] :
+            LET f == "file:" \o db.nodes[s].nglobs[i][3][j] IN
+              f \in Keys(db) /\ ~db.nodes[f].detached /\ Role(db.nodes[f].fstate) \in {"OUTPUT", "VOLATILE"}}}
+
 GlobBuildsProduct(db) ==
   \E s \in Steps(db) : ~db.nodes[s].detached /\
      \E i \in DOMAIN db.nodes[s].nglobs :
